@@ -135,6 +135,7 @@ class Run:
     def __init__(self, sc):
         self.sc = sc
         self.elog = []
+        self.presend = []
         self.loop = VLoop()
         self.kind = sc["driver"]
         gwcls = {"tridonic": G.GwTridonic, "hasseb": G.GwHasseb, "luba": G.GwLuba, "sci": G.GwSci}[self.kind]
@@ -276,8 +277,14 @@ class Run:
                     return sc.get("first_seq", 1)
             H.random = _R
             cls = H.tridonic if self.kind == "tridonic" else H.hasseb
-            d = cls("/dev/fake-dali", reconnect_interval=sc.get("reconnect_interval", 1),
-                    reconnect_limit=sc.get("reconnect_limit"))
+            H.glob = G.FakeGlob(self.gw)
+            if sc.get("glob"):
+                # the device node is given as a pattern; the node may come back under another name that matches it
+                d = cls("/dev/fake-dali*", glob=True, reconnect_interval=sc.get("reconnect_interval", 1),
+                        reconnect_limit=sc.get("reconnect_limit"))
+            else:
+                d = cls("/dev/fake-dali", reconnect_interval=sc.get("reconnect_interval", 1),
+                        reconnect_limit=sc.get("reconnect_limit"))
             d.exceptions_on_send = sc.get("exceptions", True)
             if sc.get("trace_events"):
                 d.transaction_lock = LoggingLock(self.elog.append)
@@ -304,6 +311,14 @@ class Run:
             cls = S.DriverLubaRs232 if self.kind == "luba" else S.DriverSCIRS232
             d = cls(("luba232" if self.kind == "luba" else "scirs232") + ":/dev/fake")
             self.driver = d
+            if sc.get("send_before_connect"):
+                # an application that sends too early is told so (IOError); nothing may be left behind by that
+                for k in range(sc["send_before_connect"]):
+                    try:
+                        await asyncio.wait_for(d.send(make_command("q16" if k % 2 else "qdt6", k)), timeout=1)
+                        self.presend.append("none")
+                    except BaseException as e:  # noqa: recorded
+                        self.presend.append(type(e).__name__)
             await d.connect()
             if sc.get("trace_events"):
                 d.transaction_lock = LoggingLock(self.elog.append)
@@ -537,7 +552,7 @@ def run_scenario(sc):
             pass
     return {"driver": sc["driver"], "wire": r.gw.cmdlog, "writes": r.gw.writes if sc.get("keep_writes") else [],
             "nwrites": len(r.gw.writes), "callers": callers, "lock_free": lock_free, "status": r.status,
-            "traffic": [[n, v] for n, v in sorted(r.traffic.items())], "out": out, "info": info, "hs": hs,
+            "traffic": [[n, v] for n, v in sorted(r.traffic.items())], "out": out, "info": info, "hs": hs, "presend": r.presend,
             "opens": getattr(r.gw, "openlog", []), "present_at_end": 1 if r.gw.present else 0,
             "lost_at": round(r.lost_at, 6), "returned_in_time": r.returned_in_time,
             "reports": r.gw.reports if sc.get("keep_reports") else [],
